@@ -473,6 +473,12 @@ def create_activation_function(op_type: Op, min=None, max=None) -> ActivationFun
     return act
 
 
+def _axis_value(axis_tens) -> int:
+    # an axis operand can be a scalar or a 1-D tensor with one element
+    values = axis_tens.values
+    return int(values) if values.ndim == 0 else int(values[0])
+
+
 class Operation:
     """Class representing a Neural Network operation. Has a name, a type,
     input and output tensors, as well as an attribute dictionary."""
@@ -747,7 +753,7 @@ class Operation:
             assert len(self.inputs) == self.attrs["values_count"]
         else:
             assert len(axis_tensor.ops) == 1 and axis_tensor.ops[0].type == Op.Const
-            axis = int(axis_tensor.values)
+            axis = _axis_value(axis_tensor)
 
         return inputs, axis
 
@@ -765,7 +771,7 @@ class Operation:
             num_splits = self.attrs.get("num_splits")
             axis_tens = self.inputs[0]
             assert len(axis_tens.ops) == 1 and axis_tens.ops[0].type == Op.Const
-            axis = int(axis_tens.values)
+            axis = _axis_value(axis_tens)
             input_tens = self.inputs[1]
             outputs = self.outputs
             assert num_splits == len(outputs)
@@ -779,7 +785,7 @@ class Operation:
 
             axis_tens = self.inputs[2]
             assert len(axis_tens.ops) == 1 and axis_tens.ops[0].type == Op.Const
-            axis = int(axis_tens.values)
+            axis = _axis_value(axis_tens)
 
             for idx, size in enumerate(sizes):
                 # One but only one size might be set to -1, indicating that size should be inferred
